@@ -80,9 +80,9 @@ Print Assumptions C06_rules_no_cycle.
 (** * Non-vacuity: one meta-model that satisfies all rules, and for every rule a
     meta-model that breaks exactly that rule. *)
 Definition V := rule_verdicts reserved_data.
-(* the list of the 17 per-rule verdicts with [false] exactly at the positions [ks] *)
+(* the list of the 18 per-rule verdicts with [false] exactly at the positions [ks] *)
 Definition falses (ks : list nat) : list bool :=
-  map (fun i => negb (existsb (Nat.eqb i) ks)) (seq 0 17).
+  map (fun i => negb (existsb (Nat.eqb i) ks)) (seq 0 18).
 
 Definition tint := TPrim (s2l "int").
 Definition tstr := TPrim (s2l "str").
@@ -186,7 +186,7 @@ Example C06_ex_good_satisfies_Rules : Rules reserved_data good.
 Proof. apply C06_rulesb_spec_partial. vm_compute. reflexivity. Qed.
 Print Assumptions C06_ex_good_satisfies_Rules.
 
-Example C06_ex_types_unique : rulesb reserved_data bad1 = false /\ V bad1 = falses [0; 2]%nat.
+Example C06_ex_types_unique : rulesb reserved_data bad1 = false /\ V bad1 = falses [0; 2; 17]%nat.
 Proof. vm_compute. split; reflexivity. Qed.
 Print Assumptions C06_ex_types_unique.
 
@@ -218,7 +218,7 @@ Example C06_ex_method_reserved : rulesb reserved_data bad6b = false /\ V bad6b =
 Proof. vm_compute. split; reflexivity. Qed.
 Print Assumptions C06_ex_method_reserved.
 
-Example C06_ex_constants_unique : rulesb reserved_data bad7 = false /\ V bad7 = falses [6]%nat.
+Example C06_ex_constants_unique : rulesb reserved_data bad7 = false /\ V bad7 = falses [6; 17]%nat.
 Proof. vm_compute. split; reflexivity. Qed.
 Print Assumptions C06_ex_constants_unique.
 
@@ -226,7 +226,7 @@ Example C06_ex_constant_reserved : rulesb reserved_data bad8 = false /\ V bad8 =
 Proof. vm_compute. split; reflexivity. Qed.
 Print Assumptions C06_ex_constant_reserved.
 
-Example C06_ex_functions_unique : rulesb reserved_data bad9 = false /\ V bad9 = falses [8]%nat.
+Example C06_ex_functions_unique : rulesb reserved_data bad9 = false /\ V bad9 = falses [8; 17]%nat.
 Proof. vm_compute. split; reflexivity. Qed.
 Print Assumptions C06_ex_functions_unique.
 
@@ -321,6 +321,35 @@ Example C06_ex_invariants_from_two_parents :
   rulesb reserved_data bad_two_invs = false /\ V bad_two_invs = falses [13]%nat.
 Proof. vm_compute. split; reflexivity. Qed.
 Print Assumptions C06_ex_invariants_from_two_parents.
+
+(* name clashes across kinds: a constant named like a class, a function named like an
+   enumeration, a constant named like a function *)
+Definition clash_const_class := mkMM g_enums g_cprims [g_base; g_derived] (s2l "Car" :: g_consts) g_funs g_cids g_refs.
+Definition clash_fun_enum := mkMM g_enums g_cprims [g_base; g_derived] g_consts (mkFun (s2l "Kind") None :: g_funs) g_cids g_refs.
+Definition clash_const_fun := mkMM g_enums g_cprims [g_base; g_derived] (s2l "is_fine" :: g_consts) g_funs g_cids g_refs.
+Definition clash_const_cprim := mkMM g_enums g_cprims [g_base; g_derived] (s2l "Id_text" :: g_consts) g_funs g_cids g_refs.
+Example C06_ex_cross_kind_name_clashes :
+  map (fun m => (rulesb reserved_data m, V m)) [clash_const_class; clash_fun_enum; clash_const_fun; clash_const_cprim]
+  = [(false, falses [17]%nat); (false, falses [17]%nat); (false, falses [17]%nat); (false, falses [17]%nat)].
+Proof. vm_compute. reflexivity. Qed.
+Print Assumptions C06_ex_cross_kind_name_clashes.
+
+(* constructor argument versus property type, in every shape *)
+Definition ct (pt at_ : ty) (d : dflt) := with_classes [g_base; g_derived;
+  mkCls (s2l "Holder") [] [mkProp (s2l "v") pt] [] [] (Some [mkArg (s2l "v") at_ d])].
+Definition tcar := TOur (s2l "Car").
+Example C06_ex_ctor_type_shapes :
+  map (fun m => (rulesb reserved_data m, V m))
+    [ct (TOpt tstr) (TOpt tstr) DefaultNone; ct (TList tcar) (TList tcar) NoDefault;
+     ct (TOpt tstr) tstr NoDefault; ct tstr (TOpt tstr) DefaultNone;
+     ct (TList tcar) tcar NoDefault; ct tcar (TList tcar) NoDefault;
+     ct (TList tcar) (TList (TOur (s2l "Vehicle"))) NoDefault; ct tstr tint NoDefault;
+     ct (TOpt (TList tcar)) (TList tcar) NoDefault; ct (TList tcar) (TOpt (TList tcar)) DefaultNone]
+  = [(true, falses []); (true, falses []);
+     (false, falses [11]%nat); (false, falses [11]%nat); (false, falses [11]%nat); (false, falses [11]%nat);
+     (false, falses [11]%nat); (false, falses [11]%nat); (false, falses [11]%nat); (false, falses [11]%nat)].
+Proof. vm_compute. reflexivity. Qed.
+Print Assumptions C06_ex_ctor_type_shapes.
 
 Example C06_ex_broken_rule_refutes_Rules : ~ Rules reserved_data bad13_ll.
 Proof. intro H. apply C06_rulesb_spec_partial in H. vm_compute in H. discriminate. Qed.
